@@ -198,34 +198,37 @@ class FaultCheck:
         s.chunk = params.get('chunk', 1)
         s.twin = params.get('twin', False)
 
-    def faulty_unit(s, kind):
-        """(bytes, handler call made by the faulty unit itself or None, script, expected error or None=any)"""
+    def faulty_unit(s, kind, rel):
+        """(bytes, handler call made by the faulty unit itself or None, script, expected error or None=any).
+        rel: the unit follows ':A:C' and is written relative to A where the tree allows it"""
         ex = s.ex
         from ..natives import in_range, Or, And, Not, lower
         k = s.KINDS[kind]
+        A = b'' if rel else b':A:'
         if k == 'invalid-byte':
             b = z3.BitVec('fb', 8)
             alnum = Or(in_range(b, 48, 57), in_range(b, 65, 90), in_range(b, 97, 122))
             ws = Or(in_range(b, 0, 9), in_range(b, 11, 32))
             ex.solver.add(z3.Not(alnum), z3.Not(ws), b != 95, b != 58, b != 59, b != 63, b != 10)
-            return list(b':C') + [b], None, None, None
+            return list(b'C' if rel else b':C') + [b], None, None, None
         if k == 'undefined-mnemonic':
             b = z3.BitVec('fl', 8)
             ex.solver.add(Or(in_range(b, 65, 90), in_range(b, 97, 122)))
             for c in b'bckqsx':
                 ex.solver.add(lower(b) != c)
-            return list(b':A:') + [b], None, None, None
+            return list(A) + [b], None, None, None
         if k == 'query-mismatch':
             v = ex.decide([(0, True), (1, True)])
-            return list([b':A:B?', b':A:Q'][v]), None, None, None
+            return list(A + [b'B?', b'Q'][v]), None, None, None
         if k == 'extra-parameter':
             v = ex.decide([(0, True), (1, True)])
-            return list([b':X 1', b':U? 1,2'][v]), None, None, None
+            return list([A + b'B 1', b':U? 1,2'][v]), None, None, None
         if k == 'missing-parameter':
-            return list(b':U?'), None, None, None
+            v = ex.decide([(0, True), (1, True)])
+            return list([A + b'K', b':U?'][v]), None, None, None
         if k == 'wrong-kind':
             v = ex.decide([(0, True), (1, True), (2, True)])
-            return list([b':U? "x"', b':S 5', b':K 5'][v]), None, None, None
+            return list([b':U? "x"', A + b'S 5', A + b'K 5'][v]), None, None, None
         if k == 'out-of-range':
             d = [z3.BitVec(f'fd{i}', 8) for i in range(3)]
             for x in d:
@@ -235,7 +238,7 @@ class FaultCheck:
             return list(b':U? ') + d, None, None, None
         if k == 'handler-error':
             n = z3.BitVec('fn', 16)
-            return list(b':A:B'), 0, ('custom', n, list(b'bad')), ('Custom', n, b'bad')
+            return list(A + b'B'), 0, ('custom', n, list(b'bad')), ('Custom', n, b'bad')
         raise Unsupported(k)
 
     def body(s):
@@ -243,9 +246,13 @@ class FaultCheck:
         kind = s.kinds[ex.decide([(i, True) for i in range(len(s.kinds))])] if len(s.kinds) > 1 else s.kinds[0]
         shape = ex.decide([(i, True) for i in range(4)])       # [F], [v;F], [F;v], [v;F;v]
         pre = ex.decide([(i, True) for i in range(2)])         # preceding message or not
-        fbytes, fcall, fscript, ferr = s.faulty_unit(kind)
+        rel = shape in (1, 3) and ex.decide([(0, True), (1, True)]) == 1
+        fbytes, fcall, fscript, ferr = s.faulty_unit(kind, rel)
         before = [(list(b':A:C'), 1)] if shape in (1, 3) else []
-        after = [(list(b'*R'), 5)] if shape in (2, 3) else []
+        # the unit after the fault: a common command, or (after a relative faulty unit) a unit relative to A
+        after = []
+        if shape in (2, 3):
+            after = [(list(b'C'), 1)] if (rel and not fbytes[0] == ord(':')) else [(list(b'*R'), 5)]
         msg = []
         for u, _ in before:
             msg += u + [ord(';')]
@@ -253,7 +260,8 @@ class FaultCheck:
         for u, _ in after:
             msg += [ord(';')] + u
         msg.append(10)
-        stream = (list(b':X\n') if pre else []) + msg + list(b':C;:A:Q?\n')
+        # the following message starts with a relative header: it must be resolved from the root whatever happened before
+        stream = (list(b':X\n') if pre else []) + msg + list(b'C;A:Q?\n')
         s.stream = stream
         # which handler invocation (0-based count) is the faulty unit's own, for the script
         script = None
